@@ -44,7 +44,7 @@ def builtin_cases(ctx):
                     rng(a, max(MIN, min(MAX, a + s * d)), s)
     # conversions over the annotated value pool of C06 plus a few more
     vals = c06.pool(ctx) + [c06.S(x) for x in ("3.99", "-2.5", "1e3", "abc", "12abc", "  7", "0x1f", "+5", "1_000",
-                                                  "9007199254740993", "-9007199254740993", "9223372036854775807", "-9223372036854775808", "9223372036854775806", "4611686018427387905", "123456789012345678", "1000000000000000001")] + [c06.F(x) for x in (3.99, -2.5, 1e15, -0.0, 123456.789)]
+                                                  "-0", "-00", "-0.0", "-0e0", "0", "00", "-1", "-12", "0.0", "9007199254740993", "-9007199254740993", "9223372036854775807", "-9223372036854775808", "9223372036854775806", "4611686018427387905", "123456789012345678", "1000000000000000001")] + [c06.F(x) for x in (3.99, -2.5, 1e15, -0.0, 123456.789)]
     for v in vals:
         # C19's own reading of "decimal numeral string": what strconv parses beyond plain digits (exponent, sign, blanks, underscores, Inf / NaN, hexadecimal
         # floats) is left open here; an integer numeral outside int64 is parsed as a float
